@@ -13,6 +13,10 @@ CLAIMED = {
    text="Machine-checked proof (Lean 4, full): one *_spec theorem per exported function of pkg/slice (40 theorems) proving, for all heaps, all valid slice values (any offset/len/cap), all element types and callbacks, that the function returns exactly its List specification (map, mapIdx, filter, flatMap, flatten, ++, take/drop, head?/tail/getLast?/dropLast, zipWith, foldl, all/any/find?, first-occurrence de-duplication, sorted permutation) under exactly the domain guard the Go code has, plus *_panics theorems for the error branches. Tied to /repo by the regenerated function inventory and by exhaustive small-slice x every-function x every-parameter correspondence runs against the real package.",
    design="§5 C13", technique="Lean 4 theorems (loop invariants over a Go slice heap model) + exhaustive small-domain correspondence with the real package",
    note="Trusted: Lean kernel; the heap model; slices.SortFunc assumed to leave an ascending permutation (checked on every observed call); the named callback family is implemented twice (Go, Lean). Integers unbounded in the model."),
+ "C10": dict(
+   text="Machine-checked proof (Lean 4, full): opEqual_iff proves for ALL first-order Folang values a, b (any nesting of ints, strings, bools, tuples, records with any field capitalisation, unions, slices) and ALL Go representations of them (each empty slice independently nil or non-nil) that the model of frt.OpEqual = cmp.Equal+Exporter+EquateEmpty never panics and returns decide(a = b); reflexivity, symmetry, transitivity and <> = negation follow. Witness theorems show plain cmp.Equal (before fix 01c3b5f) violates both clauses. Tied to /repo by the eq.pair stream: pairs of values of 12 real fc-emitted types through the emitted =/<> functions vs the model.",
+   design="§5 C10", technique="Lean 4 theorem (mutual structural induction over values) + correspondence on fc-emitted types",
+   note="Trusted: Lean kernel; the model of go-cmp v0.6.0's rules and of the value representation; prelude transpiled by the real fc at check time. Floats/functions/maps are outside the statement."),
  "C14": dict(
    text="Machine-checked proof (Lean 4, full): dict refines a finite map (add_refines, containsKey/tryFind/item_refines, keys/kvs_enumerates with Nodup for EVERY enumeration order, toDict_last), strings laws for all byte strings (concat_split, concat_splitN, splitN2, hasPrefix/hasSuffix_iff, trimSuffix_append, argument-order theorems) over a transcription of Go's genSplit/Index, buf_accumulates, frt thunk/tuple laws, and toS_total: for every reflect kind the accessor chosen by the REGENERATED kind switch is legal (false before fix a41e038: toS_unfixed_panics). Tied to /repo by regenerated inventories + toS arms and by lib.dict/lib.str/lib.buf/lib.tos correspondence streams against the real packages.",
    design="§5 C14", technique="Lean 4 theorems (refinement, list laws, decide over a regenerated table) + correspondence with the real packages",
@@ -57,7 +61,7 @@ def main():
             {"name": "harness", "path": "harness/", "serves_properties": sorted(CLAIMED), "kind_free_text": "Go drivers calling the real code in-process, go/ast fact extractor"},
         ],
         "checks": checks,
-        "notes": "Fix commits in /repo: 20f0992 (slice.PushLast). known_findings.json lists fixed and known findings.",
+        "notes": "Fix commits in /repo: 20f0992 (slice.PushLast), a41e038 (frt.toS), 01c3b5f (frt.OpEqual). known_findings.json lists fixed and known findings.",
         "not_applicable": na,
     }
     json.dump(m, open(os.path.join(V, "MANIFEST.json"), "w"), indent=1)
